@@ -267,10 +267,12 @@ def proof_audit(pid, thorough=False):
     obligations = len(reg) + 1
     discharged = sum(1 for t in reg if t in results and not (results[t] - ALLOWED_AXIOMS)) + (0 if grep_bad else 1)
     # tie by translation: regenerate the generated model from /repo's source, rebuild and audit the gen_* theorems
-    for extra in extras:
-        o, d = translation_audit(pid, extra, failures, results)
-        obligations += o
-        discharged += d
+    # (the modules are independent; regeneration and `lake build` serialise on their file locks, the `#print axioms` runs do not)
+    from concurrent.futures import ThreadPoolExecutor
+    with ThreadPoolExecutor(max_workers=4) as pool:
+        for o, d in pool.map(lambda extra: translation_audit(pid, extra, failures, results), extras):
+            obligations += o
+            discharged += d
     if thorough and built:
         # (companion modules that could be built in this run, generated-code refinement modules included)
         xmods = [x["module"] for x in extras if os.path.exists(os.path.join(LEAN, ".lake", "build", "lib", "lean", *x["module"].split(".")) + ".olean")]
